@@ -218,6 +218,7 @@ type sched struct {
 	beginArrived bool // the next compaction task already reported dkv.compact.begin
 	failedTasks  int  // compaction tasks that ended with a (fault-induced) error
 	gateHolder   string // "F" / "C": the task whose table Save is parked at the gate
+	c1Idx        int    // position in acts of the OC1 whose change set is filled in when it is applied
 }
 
 var hookNames = []string{"dkv.flush.begin", "dkv.flush.swap", "dkv.flush.end", "dkv.compact.begin", "dkv.compact.iter",
@@ -384,14 +385,16 @@ func (s *sched) c1g() bool {
 		s.cstate = 3
 		s.gateHolder = "C"
 		s.tags["compaction_save_held"] = true
-		s.emit("(OC1 true)", "C1:cs(save held)")
+		s.c1Idx = len(s.acts)
+		s.emit("(OC1 PENDING)", "C1:cs(save held)")
 	case <-s.arrive["dkv.compact.swap"]:
 		s.cstate = 2
-		s.emit("(OC1 true)", "C1:cs")
+		s.c1Idx = len(s.acts)
+		s.emit("(OC1 PENDING)", "C1:cs")
 	case <-s.arrive["dkv.compact.end"]:
 		s.rel("dkv.compact.end")
 		s.cstate = 0
-		s.emit("(OC1 false)", "C1:nil")
+		s.emit("(OC1 (@None changeset))", "C1:nil")
 	case <-time.After(20 * time.Second):
 		s.err = fmt.Errorf("compaction task reached neither a table Save nor dkv.compact.swap nor dkv.compact.end")
 	}
@@ -444,11 +447,12 @@ func (s *sched) c1(fault *fault18) bool {
 		if s.ffs.faults.Load() > 0 {
 			s.tags["fault_hit_but_change_set"] = true
 		}
-		s.emit("(OC1 true)", "C1:cs")
+		s.c1Idx = len(s.acts)
+		s.emit("(OC1 PENDING)", "C1:cs")
 	case <-s.arrive["dkv.compact.end"]:
 		s.rel("dkv.compact.end")
 		s.cstate = 0
-		s.emit("(OC1 false)", "C1:nil")
+		s.emit("(OC1 (@None changeset))", "C1:nil")
 	case <-sentinel:
 		ended()
 	case <-nextBegin:
@@ -473,12 +477,46 @@ func (s *sched) c2() bool {
 	if s.cstate != 2 || s.err != nil {
 		return false
 	}
+	before := s.db.VerifC07Tables()
 	s.rel("dkv.compact.swap")
 	if !s.wait("dkv.compact.iter") {
 		return false
 	}
 	s.cstate = 1
 	s.tags["compaction_applied"] = true
+	// the change set that was applied = the difference of the level list across the locked swap
+	after := s.db.VerifC07Tables()
+	was, is := map[*sst.Table]bool{}, map[*sst.Table]bool{}
+	for _, l := range before {
+		for _, t := range l {
+			was[t] = true
+		}
+	}
+	for _, l := range after {
+		for _, t := range l {
+			is[t] = true
+		}
+	}
+	level := 1
+	var addE, remE [][]ent
+	for i, l := range after {
+		for _, t := range l {
+			if !was[t] {
+				level = i
+				addE = append(addE, tableEntries(t))
+			}
+		}
+	}
+	for _, l := range before {
+		for _, t := range l {
+			if !is[t] {
+				remE = append(remE, tableEntries(t))
+			}
+		}
+	}
+	if s.c1Idx >= 0 && s.c1Idx < len(s.acts) {
+		s.acts[s.c1Idx] = "(OC1 " + coqCS(level, addE, remE) + ")"
+	}
 	s.emit("OC2", "C2")
 	return true
 }
@@ -1095,6 +1133,21 @@ func rangesOf(ll *sst.LevelList) (string, []string) {
 	return coqList(lv, "list (bytes * bytes)"), human
 }
 
+// tableEntries reads all entries of a table (errors are ignored: whatever could be read is reported; a table that cannot
+// be read shows up in the reads of the case).
+func tableEntries(t *sst.Table) []ent {
+	var out []ent
+	var serr error
+	for e := range t.ScanPrefix(nil, &serr) {
+		out = append(out, ent{K: bytes.Clone(e.Key()), S: e.SeqNum(), D: e.IsDelete(), V: bytes.Clone(e.Value())})
+	}
+	return out
+}
+
+func coqCS(level int, adds, rems [][]ent) string {
+	return fmt.Sprintf("(Some (mkCS %s %s %s))", hx.CoqNat(level), coqTables(adds), coqTables(rems))
+}
+
 func writeTable(tw *sst.TableWriter, t []ent) (*sst.Table, error) {
 	return tw.Write(func(yield func(kv.Entry) bool) {
 		for i := range t {
@@ -1206,7 +1259,22 @@ func execC18(c *hx.Case) (*hx.Result, error) {
 				tags["l0_arrived_before_apply"] = true
 			}
 		}
+		ocs := "(@None changeset)"
 		if cs != nil {
+			adds, rems := cs.VerifParts()
+			level := 0
+			var addE, remE [][]ent
+			for _, a := range adds {
+				level = a.LevelNum
+				addE = append(addE, tableEntries(a.Table))
+			}
+			if level < 0 {
+				level += len(levels)
+			}
+			for _, t := range rems {
+				remE = append(remE, tableEntries(t))
+			}
+			ocs = coqCS(level, addE, remE)
 			ll = ll.NewWithChangeSet(cs)
 			nonnil++
 		}
@@ -1215,7 +1283,7 @@ func execC18(c *hx.Case) (*hx.Result, error) {
 		if err != nil {
 			return false, err
 		}
-		steps = append(steps, fmt.Sprintf("(CStep %s %s %s %s %s)", hx.CoqBool(cs != nil), hx.CoqBool(failed), coqTables(extra), rg, post))
+		steps = append(steps, fmt.Sprintf("(CStep %s %s %s %s %s)", ocs, hx.CoqBool(failed), coqTables(extra), rg, post))
 		log = append(log, fmt.Sprintf("step cs=%v failed=%v faultreads=%d extra=%d %s | %s", cs != nil, failed, ffs.faults.Load(), len(extra), strings.Join(rgH, " "), strings.Join(postH, " ")))
 		return cs != nil || failed, nil
 	}
